@@ -11,6 +11,8 @@ for p in ['harness/src/main.rs','known_findings.txt','tools/gen_consts.py']:
         open(p,'w').write(s)
 PY
 git checkout --ours MANIFEST.json coq/pins.json 2>/dev/null
+# evidence files are rewritten by the checks: take the incoming side of a conflict
+for f in $(git diff --name-only --diff-filter=U -- evidence harness/Cargo.lock 2>/dev/null); do git checkout --theirs -- "$f" 2>/dev/null; done
 python3 tools/pin.py; python3 tools/gen_manifest.py
 ( cd coq && coq_makefile -f _CoqProject $(find theories -name '*.v' | sort) -o Makefile >/dev/null 2>&1 )
 grep -n "<<<<<<<\|>>>>>>>" -r harness/src tools known_findings.txt | head
